@@ -232,8 +232,34 @@ def splitAt (sep : String) : List String → List String × List String
   | [] => ([], [])
   | t :: ts => if t == sep then ([], ts) else let r := splitAt sep ts; (t :: r.1, r.2)
 
+def pXOp : P XOp
+  | "xset" :: ts =>
+    match pInt ts with
+    | none => none
+    | some (i, ts) => (pRecipe ts).map fun (r, ts) => (.setItem i r, ts)
+  | "xdel" :: ts => (pInt ts).map fun (i, ts) => (.delItem i, ts)
+  | "xiadd" :: ts => (pCounted pRecipe ts).map fun (rs, ts) => (.iadd rs, ts)
+  | "xadd" :: ts => (pCounted pRecipe ts).map fun (rs, ts) => (.add rs, ts)
+  | "xmul" :: ts => (pInt ts).map fun (k, ts) => (.mul k, ts)
+  | "ximul" :: ts => (pInt ts).map fun (k, ts) => (.imul k, ts)
+  | "xcopy" :: ts => some (.copy, ts)
+  | "xsort" :: ts => some (.sort, ts)
+  | _ => none
+
 def answer (l : String) : String :=
   match tokens l with
+  | "xop" :: g :: ts =>
+    -- xop <guard> <history ops> | <one inherited list operation>: outcome and components after it
+    let (pre, xt) := splitAt "|" ts
+    match pOps (pre.length + 1) pre, pXOp xt with
+    | some pops, some (x, _) =>
+      match run (g == "1") .empty pops with
+      | .multi cs =>
+        match stepX cs x with
+        | .ok ds => "ok " ++ showState (.multi ds) ++ " inv=" ++ (if (State.multi ds).consistent then "1" else "0")
+        | .error e => showOut (.err e) ++ " " ++ showState (.multi cs) ++ " inv=" ++ (if (State.multi cs).consistent then "1" else "0")
+      | _ => "na"
+    | _, _ => "bad"
   | "tree" :: g :: d :: ts =>
     -- tree <guard> <depth> <prefix ops> | <alphabet ops>
     let (pre, alph) := splitAt "|" ts
